@@ -141,6 +141,20 @@ NEEDS = {
     "C18g": "more than 100 broker messages before a read: the receive queue got maxsize=100 (same change as C18b, found independently)",
     "C19g": "an internal message of type 25 (pong), which exists in 2.0 and 2.1: in the 2.2 enum I_PONG became an alias of value 24, so 25 is no member there",
     "C19b": "a child of type S_HEATER / S_CUSTOM and a set whose value type the 1.4 table lists for it but newer tables do not (or vice versa): shared handle_set consults the per-version table",
+    # eighth round: two cooperating sites that each look fine alone (reverting either one restores the property)
+    "C03h": "an unusable version report, then any further line: the protocol getter now derives the rules from the stored version (site 1) and the setter stores the version before resolving it (site 2): ValueError escapes every later listen/send",
+    "C04h": "a stream message of type n from a known node and the internal message of the same number n (0 battery, 3 id request): a functools.cache'd handler lookup (site 1) also used by handle_stream (site 2) keys IntEnum members of two enums as one entry",
+    "C06h": "version unknown and an I_VERSION report from a node other than the gateway: the handler stores it on the node (site A) and the version-query wrapper exempts I_VERSION as 'the answer itself' (site B): no query follows",
+    "C07h": "2.2 only: wake, parked send, wake that releases something, send before the next pre-sleep notification: the release clears node.sleeping while it delivers and the 2.0 heartbeat handler re-sets it afterwards, the 2.2 override sets it before the release",
+    "C08h": "a write fault at a non-first position of a release, then a later wake: handle_set marks the node in a new pending set (site 1), the release returns early for unmarked nodes and unmarks before its loop (site 2)",
+    "C09h": "a send for a not yet released key while the release is suspended in a write: the release marks the node awake in a new set and skips vanished keys (site 1), handle_set writes directly for awake nodes (site 2): the stale value goes out after the newer one",
+    "C10h": "2.x and a write fault on the presentation request itself, then another rejected message from that node: a new outgoing handle_internal marks the request outstanding before writing (site A), the wrapper now sends through the buffered path (site B)",
+    "C12h": "a send for the same (node, child, type) while the release is suspended in the write of the older value: a per-node pending counter counts new keys only (site 1), the release decrements per written message and returns early at zero (site 2): the newer value is never written",
+    "C13h": "one long-lived Persistence (or Gateway) that loads a non-empty file twice: NodeSchema remembers the ids it has loaded and refuses duplicates (site 1), Persistence keeps one NodeSchema for all loads and saves (site 2)",
+    "C14h": "an otherwise valid record whose battery_level is an int outside 0..100: Node.battery_level became a property whose setter raises ValueError (site 1) and the schema dropped its Range validator as redundant (site 2)",
+    "C16h": "MQTT only, the broker connection succeeds and one of the five subscriptions is refused: a new _connected flag set after all subscriptions (site 1) makes the failure cleanup, which now calls disconnect() (site 2), return early: receive task and connection left over",
+    "C17h": "a line longer than the 64 KiB limit whose terminator has not arrived yet, then a connection fault: the new _skip_line helper leaves OSError to its caller (site 1), read() awaits it inside the except LimitOverrunError clause, which the sibling except OSError does not guard (site 2)",
+    "C18h": "an undecodable payload whose error has been read, then a read on an empty queue: _receive_error remembers the error (site 1) and read() re-raises a remembered error when the queue is empty (site 2) although reception is alive",
 }
 
 
